@@ -10,6 +10,7 @@ import (
 	"bytes"
 	"fmt"
 	"sort"
+	"strings"
 	"sync"
 	"time"
 	"unsafe"
@@ -165,73 +166,92 @@ func c12One(c *Ctx, wd *lab.Watchdog, rng *lab.RNG, cs c12Case, bulk bool) {
 		slices := make([][][]byte, cs.Workers)
 		var wg sync.WaitGroup
 		allocatedBefore := a.Allocated()
-		for w := 0; w < cs.Workers; w++ {
-			wg.Add(1)
-			go func(w int) {
-				defer wg.Done()
-				src := make([]byte, 0, 256)
-				for i, sz := range perW[w] {
-					tag := uint32(epoch)<<28 | uint32(w)<<20 | uint32(i)
-					var s []byte
-					kind := kinds[w][i]
-					p := lab.Try(func() {
-						switch kind {
-						case 0:
-							wd.Enter(w, fmt.Sprintf("Allocate(%d) epoch %d", sz, epoch))
-							s = a.Allocate(sz)
-							wd.Leave(w)
-						case 1:
-							wd.Enter(w, fmt.Sprintf("AllocateAligned(%d) epoch %d", sz, epoch))
-							s = a.AllocateAligned(sz)
-							wd.Leave(w)
-							if len(s) == sz && sz > 0 {
-								if uintptr(unsafe.Pointer(&s[0]))%8 != 0 {
-									fail("aligned-not-aligned", fmt.Sprintf("AllocateAligned(%d) returned address %p", sz, &s[0]))
-								}
-								for j := range s {
-									if s[j] != 0 {
-										fail("aligned-not-zeroed", fmt.Sprintf("AllocateAligned(%d) byte %d = %#x at return (epoch %d)", sz, j, s[j], epoch))
-										break
+		midTrim := epoch >= 1 && rng.Chance(0.5)
+		for half := 0; half < 2; half++ {
+			if half == 1 && midTrim && !failed {
+				// TrimTo in the middle of an epoch, releasing only chunks BEYOND the one the position is in: everything
+				// handed out so far stays live and later allocations must not overlap it
+				if max, tail := c12TailTrim(a.String()); tail {
+					wd.Enter(64, fmt.Sprintf("mid-epoch TrimTo(%d)", max))
+					a.TrimTo(max)
+					wd.Leave(64)
+					r.Obs("mid_epoch_tail_trims", 1)
+					r.DistinctKey("%d/mid-epoch-trim/%s", cs.Initial, cs.SizeDist)
+				}
+			}
+			for w := 0; w < cs.Workers; w++ {
+				wg.Add(1)
+				go func(w int) {
+					defer wg.Done()
+					src := make([]byte, 0, 256)
+					lo, hi := 0, len(perW[w])/2
+					if half == 1 {
+						lo, hi = len(perW[w])/2, len(perW[w])
+					}
+					for i := lo; i < hi; i++ {
+						sz := perW[w][i]
+						tag := uint32(epoch)<<28 | uint32(w)<<20 | uint32(i)
+						var s []byte
+						kind := kinds[w][i]
+						p := lab.Try(func() {
+							switch kind {
+							case 0:
+								wd.Enter(w, fmt.Sprintf("Allocate(%d) epoch %d", sz, epoch))
+								s = a.Allocate(sz)
+								wd.Leave(w)
+							case 1:
+								wd.Enter(w, fmt.Sprintf("AllocateAligned(%d) epoch %d", sz, epoch))
+								s = a.AllocateAligned(sz)
+								wd.Leave(w)
+								if len(s) == sz && sz > 0 {
+									if uintptr(unsafe.Pointer(&s[0]))%8 != 0 {
+										fail("aligned-not-aligned", fmt.Sprintf("AllocateAligned(%d) returned address %p", sz, &s[0]))
+									}
+									for j := range s {
+										if s[j] != 0 {
+											fail("aligned-not-zeroed", fmt.Sprintf("AllocateAligned(%d) byte %d = %#x at return (epoch %d)", sz, j, s[j], epoch))
+											break
+										}
 									}
 								}
+							case 2:
+								if cap(src) < sz {
+									src = make([]byte, sz)
+								}
+								src = src[:sz]
+								for j := range src {
+									src[j] = c12Pattern(tag, j)
+								}
+								wd.Enter(w, fmt.Sprintf("Copy(%d bytes) epoch %d", sz, epoch))
+								s = a.Copy(src)
+								wd.Leave(w)
+								if len(s) == sz && !bytes.Equal(s, src) {
+									fail("copy-differs", fmt.Sprintf("Copy of %d bytes returned different content", sz))
+								}
 							}
-						case 2:
-							if cap(src) < sz {
-								src = make([]byte, sz)
-							}
-							src = src[:sz]
-							for j := range src {
-								src[j] = c12Pattern(tag, j)
-							}
-							wd.Enter(w, fmt.Sprintf("Copy(%d bytes) epoch %d", sz, epoch))
-							s = a.Copy(src)
+						})
+						if p != nil {
 							wd.Leave(w)
-							if len(s) == sz && !bytes.Equal(s, src) {
-								fail("copy-differs", fmt.Sprintf("Copy of %d bytes returned different content", sz))
-							}
+							fail("panic/"+p.Short(), fmt.Sprintf("call kind %d size %d: %s\n%s", kind, sz, p.Msg, p.Stack))
+							return
 						}
-					})
-					if p != nil {
-						wd.Leave(w)
-						fail("panic/"+p.Short(), fmt.Sprintf("call kind %d size %d: %s\n%s", kind, sz, p.Msg, p.Stack))
-						return
+						if len(s) != sz {
+							fail("wrong-length", fmt.Sprintf("requested %d bytes, got %d (kind %d)", sz, len(s), kind))
+							return
+						}
+						if sz == 0 {
+							continue // nothing handed out
+						}
+						for j := range s {
+							s[j] = c12Pattern(tag, j)
+						}
+						recs[w] = append(recs[w], c12Rec{uintptr(unsafe.Pointer(&s[0])), sz, tag, kind})
+						slices[w] = append(slices[w], s)
 					}
-					if len(s) != sz {
-						fail("wrong-length", fmt.Sprintf("requested %d bytes, got %d (kind %d)", sz, len(s), kind))
-						return
-					}
-					if sz == 0 {
-						continue // nothing handed out
-					}
-					for j := range s {
-						s[j] = c12Pattern(tag, j)
-					}
-					recs[w] = append(recs[w], c12Rec{uintptr(unsafe.Pointer(&s[0])), sz, tag, kind})
-					slices[w] = append(slices[w], s)
-				}
-			}(w)
+				}(w)
+			}
+			wg.Wait()
 		}
-		wg.Wait()
 		if failed {
 			return
 		}
@@ -332,4 +352,28 @@ func c12One(c *Ctx, wd *lab.Watchdog, rng *lab.RNG, cs c12Case, bulk bool) {
 	if !failed {
 		r.Sample(3, cs)
 	}
+}
+
+// c12TailTrim parses Allocator.String() ("idx: i len: n cum: c" lines and "bi: b pi: p") and returns a TrimTo
+// argument that releases exactly the chunks beyond the one the position is in (false if there are none).
+func c12TailTrim(desc string) (max int, tail bool) {
+	cum := map[int]int{}
+	last := -1
+	bi := -1
+	for _, line := range strings.Split(desc, "\n") {
+		var i, n, c, b, p int
+		if k, _ := fmt.Sscanf(line, "idx: %d len: %d cum: %d", &i, &n, &c); k == 3 {
+			cum[i] = c
+			if i > last {
+				last = i
+			}
+		}
+		if k, _ := fmt.Sscanf(line, "bi: %d pi: %d", &b, &p); k == 2 {
+			bi = b
+		}
+	}
+	if bi < 0 || last <= bi {
+		return 0, false
+	}
+	return cum[bi] + 1, true
 }
